@@ -114,3 +114,14 @@ var VerifPointNames = map[int]string{
 	vpFileClose:    "FILE_CLOSE",
 	vpGCRecheck:    "GC_RECHECK",
 }
+
+// VerifRetired lists the snapshot numbers waiting in the dead list.
+func (m *Nitro) VerifRetired() []uint32 {
+	var sns []uint32
+	buf := m.gcsnapshots.MakeBuf()
+	iter := m.gcsnapshots.NewIterator(CompareSnapshot, buf)
+	for iter.SeekFirst(); iter.Valid(); iter.Next() {
+		sns = append(sns, (*Snapshot)(iter.Get()).sn)
+	}
+	return sns
+}
